@@ -57,6 +57,13 @@ func c12Judge(space string, idx int64, s *drv.Server, files map[string]string, f
 		det["identifier"] = name
 		r.Fail(space, idx, sig, coreS, det)
 	}
+	opened := map[string]bool{f.rel: true}
+	ensureOpen := func(rel string) {
+		if !opened[rel] {
+			opened[rel] = true
+			s.Open(rel, files[rel])
+		}
+	}
 	for k, at := range f.pos {
 		name := f.nm[k]
 		defs, err := s.Definition(f.rel, at.Start.Line, at.Start.Character)
@@ -88,6 +95,7 @@ func c12Judge(space string, idx int64, s *drv.Server, files map[string]string, f
 			if _, ok := files[ref.File]; !ok {
 				continue
 			}
+			ensureOpen(ref.File)
 			d2, err := s.Definition(ref.File, ref.Range.Start.Line, ref.Range.Start.Character)
 			r.Transitions++
 			if err != nil {
@@ -102,6 +110,7 @@ func c12Judge(space string, idx int64, s *drv.Server, files map[string]string, f
 		if len(defs) > 0 {
 			d0 := locsToFR(s, defs)[0]
 			if _, ok := files[d0.File]; ok {
+				ensureOpen(d0.File)
 				r2, err := s.References(d0.File, d0.Range.Start.Line, d0.Range.Start.Character)
 				r.Transitions++
 				if err == nil {
@@ -139,7 +148,7 @@ func c12Judge(space string, idx int64, s *drv.Server, files map[string]string, f
 			if j := strings.Index(label, "```"); j >= 0 {
 				label = label[:j]
 			}
-			if !strings.Contains(label, name) {
+			if !strings.Contains(hov, name) {
 				fail("hover-does-not-name-the-identifier", at, name, map[string]interface{}{"hover": hov})
 			}
 			if len(defs) > 0 {
